@@ -1011,6 +1011,8 @@ class _FloatMeta(type):
         return isinstance(x, SNum) and x.is_real
 
     def __call__(cls, x=0.0):
+        if hasattr(x, "__symfloat__"):
+            return cls(x.__symfloat__())      # text that the file model wrote for a number
         if isinstance(x, SBool):
             return SNum(to_real(x.t))
         if isinstance(x, SNum):
